@@ -86,6 +86,43 @@ type Outcome struct {
 	DoVals   []int
 	DoErr    int // 0 = nil, -1 = an error that no function returned
 	DoRet    bool
+	Extra    []string // violations seen by the second (nested / concurrent) call of an overlapping Do scenario
+}
+
+// callDoV calls the Do wrapper of the variant with n functions.
+func callDoV(F *VFuncs, variant string, fs []func() (int, error)) ([]int, error) {
+	v := make([]int, len(fs))
+	var err error
+	switch len(fs) {
+	case 2:
+		v[0], v[1], err = F.Do2[variant](fs[0], fs[1])
+	case 3:
+		v[0], v[1], v[2], err = F.Do3[variant](fs[0], fs[1], fs[2])
+	case 4:
+		v[0], v[1], v[2], v[3], err = F.Do4(fs[0], fs[1], fs[2], fs[3])
+	}
+	return v, err
+}
+
+// secondCall is the other call of an overlapping scenario: n succeeding functions with their own values; it reports
+// what is wrong with the results IT gets back.
+func secondCall(n int, call func(fs []func() (int, error)) ([]int, error)) []string {
+	fs := make([]func() (int, error), n)
+	for i := range fs {
+		i := i
+		fs[i] = func() (int, error) { return 500 + i, nil }
+	}
+	v, err := call(fs)
+	var bad []string
+	for i := range v {
+		if v[i] != 500+i {
+			bad = append(bad, fmt.Sprintf("second call of the same Do in flight: result %d is %d, its function %d returned %d", i, v[i], i, 500+i))
+		}
+	}
+	if err != nil {
+		bad = append(bad, fmt.Sprintf("second call of the same Do in flight: all its functions succeeded but it returned error %v", err))
+	}
+	return bad
 }
 
 // roleOf maps the emitted function names of the fixed package to the role names the Lean replay knows.
@@ -198,21 +235,19 @@ func VBody(F *VFuncs, c Config, o *Outcome) (func(), error) {
 							rv[p].Recv()
 						}
 					}
+					if i == 0 && c.Overlap == "nested" { // function 0 itself calls the same generated Do
+						o.Extra = append(o.Extra, secondCall(c.N, func(g []func() (int, error)) ([]int, error) { return callDoV(F, c.Variant, g) })...)
+					}
 					return DoVal(i), DoErrOf(c.Errs[i])
 				}
 			}
-			var err error
-			switch c.N {
-			case 2:
-				o.DoVals = make([]int, 2)
-				o.DoVals[0], o.DoVals[1], err = F.Do2[c.Variant](fs[0], fs[1])
-			case 3:
-				o.DoVals = make([]int, 3)
-				o.DoVals[0], o.DoVals[1], o.DoVals[2], err = F.Do3[c.Variant](fs[0], fs[1], fs[2])
-			case 4:
-				o.DoVals = make([]int, 4)
-				o.DoVals[0], o.DoVals[1], o.DoVals[2], o.DoVals[3], err = F.Do4(fs[0], fs[1], fs[2], fs[3])
+			if c.Overlap == "concurrent" { // a second caller at the same time
+				vsched.Spawn("caller1", func() {
+					o.Extra = append(o.Extra, secondCall(c.N, func(g []func() (int, error)) ([]int, error) { return callDoV(F, c.Variant, g) })...)
+				})
 			}
+			var err error
+			o.DoVals, err = callDoV(F, c.Variant, fs)
 			o.DoRet = true
 			o.DoErr = DoErrCode(err)
 		}, nil
